@@ -119,8 +119,11 @@ def make_dpng(le, record):
         # option payloads
         if fmt == "b":
             return (buf.value,)
-        if fmt in ("<q", ">q"):
-            if fmt[0] != ("<" if le else ">"):
+        if fmt.lstrip("<>=@!") == "q":
+            import sys
+            order = fmt[0] if fmt[0] in "<>!" else ("<" if sys.byteorder == "little" else ">")     # native order when none is given
+            order = ">" if order == "!" else order
+            if order != ("<" if le else ">"):
                 record.append("wrong-order:" + fmt)
             return (buf.value,)
         raise AssertionError(fmt)
